@@ -360,6 +360,26 @@ CHECKS["C19"] = {
 }
 
 
+CHECKS["C08"] = {
+    "level": "exploration",
+    "technique": "exhaustive enumeration of pump shapes (parser state x repeated unit x ending x delivery) on a doubling ladder with a deterministic work meter on the real code",
+    "level_text": "Every shape prefix(state).unit^k.suffix for 23 parser states (request line, header name/value/block, folded header, chunk-size line, chunked body, trailer, urlencoded body, "
+                  "multipart body, query string, cookie header, between messages, and the response-side counterparts incl. Content-Encoding list and before/after a message) x 45 units "
+                  "(white space, CR/LF forms, header lines with the same / DISTINCT names, fold lines, chunk pieces, parameter and cookie pieces with distinct names, multipart pieces, "
+                  "path pieces, NUL, look-alike lines, and six two-phase units such as k blanks followed by k digits) x {proper end, abrupt close} x {one call, 1-byte calls} is run with "
+                  "k doubling from 64 until 1 MiB (quick) / 4 MiB (thorough) of input or a work budget of 6e8 units. Work = basic blocks executed in libhtp+LZMA (trace-pc-guard) + bytes/16 "
+                  "moved by memcpy/memmove/memset/memchr/memcmp/realloc, over the data calls. A shape is linear iff the doubling ratio of the two top steps, normalised by byte growth, is "
+                  "<= 2.3 and work/byte <= 17000; every single call must cost <= 17000.(len + bytes buffered before the call, incl. urlencoded/multipart field buffers) + 60000.",
+    "level_note": "An asymptotic claim is decided only up to the ladder top; caps that sit above the ladder would be missed (the largest, the 100 KiB folded-header cap, is inside it). realloc is "
+                  "metered as moving the whole block, which is pessimistic. The constants 17000 and 60000 are 4x the largest values measured on linear shapes (fold lines below the cap; inflateInit).",
+    "design_ref": "DESIGN.md §6 C08",
+    "rule": "state x unit x ending x delivery, ladder k=64.. ; distinct = distinct (state, work-per-byte class) outcomes",
+    "bounds": {"quick": "ladder to 1 MiB / 6e8 work units; 1-byte delivery to 8 KiB", "thorough": "ladder to 4 MiB"},
+    "assumptions": ["IDS personality, logging off"],
+    "jobs": lambda tier: [J("pump", "cost")],
+}
+
+
 def manifest():
     import json, os
     root = os.path.dirname(os.path.dirname(os.path.abspath(__file__)))
@@ -398,6 +418,7 @@ ENGINES = [
     {"name": "mpartmc", "path": "mc/mpartmc.c", "serves_properties": ["C14"], "kind_free_text": "E1 on htp_mpartp_parse: generated multipart bodies x cut sets vs generator ground truth"},
     {"name": "enum_c11", "path": "mc/enum_c11.c", "serves_properties": ["C11"], "kind_free_text": "E3: ambiguity trigger x spelling x permutation x cut product through the real request path"},
     {"name": "ilv", "path": "mc/ilv.c", "serves_properties": ["C19"], "kind_free_text": "E7: all call-level and nested interleavings of parsers sharing one cfg; shared memory mprotect()ed; + tsanrun free-running TSan pass"},
+    {"name": "pump", "path": "mc/pump.c", "serves_properties": ["C08"], "kind_free_text": "E6: pump-shape enumeration with a trace-pc-guard work meter"},
     {"name": "cutmc", "path": "mc/cutmc.c", "serves_properties": ["C01", "C02", "C03", "C04", "C06", "C10", "C16"], "kind_free_text": "E1: stateless deviation-bounded explorer of segmentation / generated grammar on the real code"},
 ]
 
